@@ -90,6 +90,16 @@ class Linear(Transform):
             self.cache.invalidate()
         return super().train(mode)
 
+    def _apply(self, *args, **kwargs):
+        # Parameters are about to be converted/moved: cached tensors would be stale.
+        self.cache.invalidate()
+        return super()._apply(*args, **kwargs)
+
+    def _load_from_state_dict(self, *args, **kwargs):
+        # Parameters are about to be overwritten: cached tensors would be stale.
+        self.cache.invalidate()
+        return super()._load_from_state_dict(*args, **kwargs)
+
     def use_cache(self, mode=True):
         if not check.is_bool(mode):
             raise TypeError("Mode must be boolean.")
